@@ -31,8 +31,9 @@ def chunks_by_steps(histories, n_chunks):
 
 
 def library_sweep(ck):
-    """every cell of the five shipped libraries, all pins connected, resolved through resolve_tlib_cells:
-    must not raise and must leave a consistent graph (regression for D9: implementation inputs that nothing reads)"""
+    """every cell of the five shipped libraries, all pins connected / no output connected / one input pin and all outputs but the
+    first unconnected, resolved through resolve_tlib_cells and then passed to eliminate_1to1_forks: must not raise and must leave
+    a consistent graph (regression for D9: implementation inputs that nothing reads; D38: stub forks without driver)"""
     from kyupy import techlib
     from kyupy.circuit import Circuit, Node, Line
     fails = []
@@ -40,14 +41,19 @@ def library_sweep(ck):
     for lname in ('GSC180', 'NANGATE', 'NANGATE_ZN', 'SAED32', 'SAED90'):
         lib = getattr(techlib, lname)
         for kind, (impl, pins) in lib.cells.items():
-            for connect in ('all', 'inputs-only'):
+            n_ins = sum(1 for p in pins.values() if not p[1])
+            for connect in ('all', 'inputs-only') + tuple(f'input-{k}-open' for k in range(n_ins if n_ins > 1 else 0)):
                 c = Circuit('lib')
                 inst = Node(c, 'u1', kind)
                 for pname, (idx, is_out) in pins.items():
+                    if connect.startswith('input-') and (idx > 0 if is_out else idx == int(connect.split('-')[1])):
+                        continue
                     f = Node(c, 'net_' + pname)
                     if is_out:
-                        if connect == 'all':
+                        if connect != 'inputs-only':
                             Line(c, (inst, idx), f)
+                            if connect.startswith('input-'):
+                                Line(c, f, Node(c, 'rd_' + pname, 'BUF1'))
                     else:
                         Line(c, f, (inst, idx))
                 n += 1
@@ -60,6 +66,15 @@ def library_sweep(ck):
                 msg = ce.invariant(c)
                 if msg:
                     fails.append((f'{lname}.{kind}', connect, msg))
+                    continue
+                try:
+                    c.eliminate_1to1_forks()
+                except Exception as e:
+                    fails.append((f'{lname}.{kind}', connect, f'eliminate_1to1_forks after resolve_tlib_cells raised {type(e).__name__}: {e}'))
+                    continue
+                msg = ce.invariant(c)
+                if msg:
+                    fails.append((f'{lname}.{kind}', connect, 'after resolve_tlib_cells + eliminate_1to1_forks: ' + msg))
             ck.nontrivial(('lib', id(impl)))
     return n, fails
 
@@ -123,11 +138,11 @@ def run(ck):
         h = ce.run_history(rng, 0, 'valid', fixed_ops=ops)
         h['style'] = 'instance'
         hs.append(h)
-    for ops in ce.removed_instance_scenarios():
+    for ops in ce.removed_instance_scenarios() + ce.open_input_scenarios():
         h = ce.run_history(rng, 0, 'valid', fixed_ops=ops)
         h['style'] = 'instance'
         if len(h['steps']) != len(ops) or not all(s[1] for s in h['steps']):
-            h['failure'] = h['failure'] or (len(h['steps']), 'a step of the removed-instance scenario is not well-formed use / was skipped')
+            h['failure'] = h['failure'] or (len(h['steps']), 'a step of the removed-instance / open-input scenario is not well-formed use / was skipped')
         hs.append(h)
     for ops in ce.shape_witness_scenarios():
         h = ce.run_history(rng, 0, 'wild', fixed_ops=ops)
@@ -178,7 +193,8 @@ def run(ck):
     # --- library cells (D9 regression) -------------------------------------------------------------------
     n_lib, lib_fails = library_sweep(ck)
     vr = verilog_regression()
-    ck.obligation(f'oracle: all {n_lib} (library cell x connection pattern) instances resolve without exception into a consistent graph; '
+    ck.obligation(f'oracle: all {n_lib} (library cell x connection pattern: all pins, no output, each single input pin open with only the first output '
+                  f'connected) instances resolve without exception into a consistent graph and eliminate_1to1_forks on the result does not raise and leaves a consistent graph; '
                   'verilog.parse + resolve_tlib_cells of TBUF_X1/TLAT_X1/HEADX2_RVT/ANTENNA_RVT/CLOAD1_RVT/TBUFX1 instances', not lib_fails and not vr,
                   'oracle', f'{lib_fails[:3]} {vr[:2]}')
     n_or = sum(1 for h in hs for s in h['steps'] if s[1])
